@@ -364,13 +364,23 @@ func runHistory(o *out.Out, r *gen.Rand, c int) {
 			return root, false
 		}
 		if nodes != nil {
-			if err := db.Update(root, types.EmptyRootHash, trienode.NewWithNodeSet(nodes)); err != nil {
+			var err error
+			if catch(func() { err = db.Update(root, types.EmptyRootHash, trienode.NewWithNodeSet(nodes)) }) {
+				o.Fail(step, "db-update-panic", "Database.Update panicked on the node set returned by Commit")
+				return root, false
+			}
+			if err != nil {
 				o.Fail(step, "db-update", err.Error())
 			}
 		}
 		if r.Chance(1, 3) {
 			// flush to the disk layer: later reads come from disk / clean cache
-			if err := db.Commit(root, false); err != nil {
+			var err error
+			if catch(func() { err = db.Commit(root, false) }) {
+				o.Fail(step, "db-commit-panic", "Database.Commit panicked")
+				return root, false
+			}
+			if err != nil {
 				o.Fail(step, "db-commit", err.Error())
 			}
 			o.Count("db.flush")
@@ -469,8 +479,12 @@ func runHistory(o *out.Out, r *gen.Rand, c int) {
 			h, ok := doCommit(step, s)
 			res := "PANIC"
 			if ok {
-				nt, err := openTrie(secure, h, db)
-				if err != nil {
+				var nt *tr
+				var err error
+				if catch(func() { nt, err = openTrie(secure, h, db) }) {
+					res = "PANIC"
+					o.Fail(step, "reopen-panic", "trie.New panicked on a committed root")
+				} else if err != nil {
 					res = "missing"
 					o.Fail(step, "reopen-missing", "trie.New on a committed root: "+err.Error())
 				} else {
